@@ -2,7 +2,7 @@ import TunnoxModel.Model.C15
 /-!
 # C15 — the property as a decidable predicate on observations
 
-Observation = the history of results in the order they happened (`ok`/`exh`/`rel`/`rnw`/`tick`) plus
+Observation = the history of results in the order they happened (`ok`/`exh`/`rel`/`relo`/`rnw`/`tick`) plus
 the set of markers the store reports live at the end.  The history is replayed on the reference
 live-set (a sequential map with expiry): an id may be handed out only if it is not live there —
 neither pre-existing, nor handed out earlier and not yet released, within its marker lifetime —,
@@ -22,6 +22,7 @@ def specStep (ttl : Nat → Nat) (s : SpecSt) : Ev → SpecSt
   | .nop _ => s
   | .err _ => s
   | .rel _ kind id => ⟨erase s.store (kind, id), s.now, s.good⟩
+  | .relo _ kind id => ⟨erase s.store (kind, id), s.now, s.good⟩
   | .rnw _ kind id => ⟨put s.store (kind, id) (expiry s.now (ttl kind)), s.now, s.good⟩
   | .tick dt => ⟨s.store, s.now + dt, s.good⟩
 
@@ -32,15 +33,30 @@ def replay (ttl : Nat → Nat) (pre : Store) (tr : List Ev) : SpecSt :=
 def viewOk (s : Store) (now : Nat) (view : List Key) : Bool :=
   view.all (live s now) && s.all (fun p => !live s now p.1 || view.contains p.1)
 
+/-! Release discipline of release-own (`NodeIDAllocator.Release`, the caller's "my id"): every
+release-own must answer a hand-out to the same caller that this caller has not released yet.  A second
+release-own of the same hand-out would free an id that may meanwhile be held by somebody else. -/
+
+abbrev Held := List (Nat × Key)
+
+def heldStep (s : Held × Bool) : Ev → Held × Bool
+  | .ok t kind id => ((t, (kind, id)) :: s.1, s.2)
+  | .relo t kind id => (s.1.erase (t, (kind, id)), s.2 && decide ((t, (kind, id)) ∈ s.1))
+  | _ => s
+
+def heldReplay (tr : List Ev) : Held × Bool := tr.foldl heldStep ([], true)
+
 /-- The property on an observation (`pre` = pre-existing markers, part of the input). -/
 def holds (ttl : Nat → Nat) (pre : Store) (tr : List Ev) (view : List Key) : Bool :=
   (replay ttl pre tr).good && viewOk (replay ttl pre tr).store (replay ttl pre tr).now view
+    && (heldReplay tr).2
 
 /-! Vocabulary for stating uniqueness on a history. -/
 
 /-- Events that neither release the key nor let `ttl` elapse keep a marker written at `t0` live. -/
 def quiet (k : Key) : Ev → Bool
   | .rel _ kind id => decide ((kind, id) ≠ k)
+  | .relo _ kind id => decide ((kind, id) ≠ k)
   | _ => true
 
 def elapsed : List Ev → Nat
